@@ -357,6 +357,65 @@ fn check_cross(case: &Json, stats: &mut Stats) -> Verdict {
 }
 
 /// whole programs whose top-level function literals capture cells the program itself creates
+/// every syntactic position in which a cell can be made from a constant: `{}` stands for the cell
+/// literal; the statement binds the cell to `c`
+const CELL_POSITIONS: [&str; 26] = [
+    "c := {};",
+    "c := [{}][0];",
+    "c := [{}; 2][1];",
+    "c := ({}, 1).0;",
+    "(c, s) := ({}, 2);",
+    "(a, c) := (1, {});",
+    "c := ({}, 2, \"s\").0;",
+    "c := struct{a := {}}.a;",
+    "c := struct{a := 1, b := {}}.b;",
+    "id := (x: mut int) -> mut int { return x; }; c := id({});",
+    "w := (x: mut int, k: int) -> mut int { x += k; return x; }; c := w({}, 0);",
+    "w := (k: int, x: mut int, s: string) -> mut int { return x; }; c := w(1, {}, \"s\");",
+    "c := { {} };",
+    "c := if true { {} } else { mut 1 };",
+    "c := if n >= 0 { {} } else { mut 1 };",
+    "c := match 1 { 1 => {}, => mut 1, };",
+    "m := mod { k := {}; }; c := m.k;",
+    "mk := () -> mut int { return {}; }; c := mk();",
+    "c := [({}, 1)][0].0;",
+    "c := [{}]~().1;",
+    "cs := [{}]~ $]; c := cs[0];",
+    "cs := [1]~ @ (x: int) -> mut int { return {}; } $]; c := cs[0];",
+    "c := [{}, {}][1];",
+    "c := ([{}] + [{}])[0];",
+    "cs := [{}]~ ? mut int $]; c := cs[0];",
+    "g := () -> (mut int, int) { return ({}, 2); }; c := g().0;",
+];
+
+fn cell_position_bodies() -> Vec<String> {
+    let mut out = vec![];
+    for p in CELL_POSITIONS {
+        for lit in ["mut 0", "mut int 0"] {
+            out.push(p.replace("{}", lit));
+        }
+    }
+    out
+}
+
+/// functions of one int whose calls share nothing: the hand-written ones, then a cell made in every position
+fn isolated_programs() -> Vec<String> {
+    let mut out: Vec<String> = ISOLATED.iter().map(|t| t.to_string()).collect();
+    for body in cell_position_bodies() {
+        out.push(format!("f := (n: int) -> int {{ {body} c += n; c += 1; return *c; }}"));
+    }
+    out
+}
+
+/// programs whose executions share nothing
+fn isolated_code_programs() -> Vec<String> {
+    let mut out: Vec<String> = ISOLATED_CODE.iter().map(|t| t.to_string()).collect();
+    for body in cell_position_bodies() {
+        out.push(format!("n := 4; {body} c += n; c += 1; *c"));
+    }
+    out
+}
+
 const ISOLATED_CODE: [&str; 6] = [
     "total := mut 0; s := [1, 2, 3, 4]~ $ 0 (acc: int, x: int) -> int { total += x; return acc + x; }; (s, *total)",
     "c := mut 0; inc := () -> int { c += 1; return *c; }; inc(); inc(); (*c, inc())",
@@ -371,7 +430,8 @@ const ISOLATED_CODE: [&str; 6] = [
 fn check_isolated_code(case: &Json, stats: &mut Stats) -> Verdict {
     let threads = case["threads"].as_u64().unwrap_or(8) as usize;
     let reps = case["reps"].as_u64().unwrap_or(1) as usize;
-    let text = ISOLATED_CODE[case["which"].as_u64().unwrap_or(0) as usize % ISOLATED_CODE.len()];
+    let programs = isolated_code_programs();
+    let text = programs[case["which"].as_u64().unwrap_or(0) as usize % programs.len()].as_str();
     run::default_budget();
     let interp = run::interpreter(true);
     let code = match run::parse_guarded(&interp, text) {
@@ -1024,9 +1084,10 @@ const ISOLATED: [&str; 12] = [
 fn check_isolated(case: &Json, stats: &mut Stats) -> Verdict {
     let threads = case["threads"].as_u64().unwrap() as usize;
     let n = case["n"].as_i64().unwrap();
-    let which = case["which"].as_u64().unwrap() as usize % ISOLATED.len();
+    let programs = isolated_programs();
+    let which = case["which"].as_u64().unwrap() as usize % programs.len();
     let reps = case["reps"].as_u64().unwrap_or(1) as usize;
-    let text = ISOLATED[which];
+    let text = programs[which].as_str();
     let f = match run::run_text(text, true) {
         Outcome::Value(Variable::Function(f)) => f,
         o => return fail("C16:setup", format!("`{text}`: {}", o.short())),
@@ -1046,10 +1107,17 @@ fn check_isolated(case: &Json, stats: &mut Stats) -> Verdict {
             Ok(c) => c,
             Err(e) => return fail("C16:isolated:create_call", e),
         };
+        // the reference: a fresh parse of the program followed by the call (nothing can be left over
+        // from an earlier call there)
+        let k = n + t as i64 % 3;
+        let fresh = match run::run_text(&format!("{text}; f({k})"), true) {
+            Outcome::Value(v) => canon::canon(&v),
+            o => return fail("C16:setup", format!("`{text}; f({k})`: {}", o.short())),
+        };
         run::default_budget();
         match run::exec_guarded(&code) {
-            Outcome::Value(v) => expected.push(canon::canon(&v)),
-            o => return fail("C16:isolated:sequential", format!("`{text}` sequentially: {}", o.short())),
+            Outcome::Value(v) if canon::canon(&v) == fresh => expected.push(fresh),
+            o => return fail("C16:isolated:sequential", format!("`{text}` called with {k} after {t} earlier calls: {}; a fresh parse and the same call give {}", o.short(), fresh.show())),
         }
         codes.push(code);
     }
@@ -1115,8 +1183,8 @@ pub fn run(session: &Session) -> i32 {
     for (op, k) in MIX_OPS {
         cases.push(json!({"kind": "mix", "op": op, "k": k, "inc": 3, "ident": 3, "readers": 2, "iters": session.tier.of(1500, 10000), "reps": session.tier.of(2, 8)}));
     }
-    for which in 0..ISOLATED_CODE.len() {
-        cases.push(json!({"kind": "isolated-code", "which": which, "threads": 8, "reps": session.tier.of(6, 40)}));
+    for which in 0..isolated_code_programs().len() {
+        cases.push(json!({"kind": "isolated-code", "which": which, "threads": 8, "reps": if which < ISOLATED_CODE.len() { session.tier.of(6, 40) } else { session.tier.of(2, 10) }}));
     }
     cases.push(json!({"kind": "show", "writers": 4, "readers": 4, "iters": session.tier.of(3000, 30000), "reps": session.tier.of(3, 10)}));
     cases.push(json!({"kind": "shared-iterator", "threads": 8, "n": session.tier.of(4000, 30000), "reps": session.tier.of(4, 20)}));
@@ -1127,8 +1195,8 @@ pub fn run(session: &Session) -> i32 {
     for cell in ["array", "string", "float", "nested"] {
         cases.push(json!({"kind": "append", "cell": cell, "threads": 8, "iters": session.tier.of(1000, 5000), "reps": session.tier.of(3, 12)}));
     }
-    for which in 0..ISOLATED.len() {
-        cases.push(json!({"kind": "isolated", "threads": 16, "n": 20, "which": which, "reps": session.tier.of(8, 40)}));
+    for which in 0..isolated_programs().len() {
+        cases.push(json!({"kind": "isolated", "threads": 16, "n": 20, "which": which, "reps": if which < ISOLATED.len() { session.tier.of(8, 40) } else { session.tier.of(2, 10) }}));
     }
     for case in &cases {
         if session.stopped() {
